@@ -8,7 +8,7 @@ use symcore::*;
 
 pub fn instances(tier: &str) -> Vec<String> {
     let mut v: Vec<String> = ["exp_ln", "exp_laws", "sqrt", "polar", "trig", "trig_quot", "hyp", "hyp_quot", "bridge", "log"].iter().map(|s| s.to_string()).collect();
-    v.push("inv_closed_forms".into()); v.push("inv_asin".into()); v.push("inv_acos".into());
+    v.push("inv_closed_forms".into()); v.push("inv_asin".into()); v.push("inv_acos".into()); v.push("inv_right".into());
     if tier == "thorough" { v.push("pow".into()); }
     v
 }
@@ -150,17 +150,84 @@ pub fn body(inst: &str) {
             must_off_singularities("acot", || { assume(nonzero(cone - i_unit * inv)); assume(nonzero(cone + i_unit * inv)); (zc.acot(), atan_ref(inv)) }, |(l, r)| ceq("acot z = atan(1/z)", l, r));
             must_off_singularities("acoth", || { assume(nonzero(inv + one())); assume(nonzero(cone - inv)); (zc.acoth(), atanh_ref(inv)) }, |(l, r)| ceq("acoth z = atanh(1/z)", l, r));
         }
-        "inv_right_lemmas" => {
-            // Lemmas behind the right-inverse identities, on an arbitrary nonzero u, for the REAL bodies of ln, sinh, cosh,
-            // sin, cos (libm axioms):  with L = ln u,  2u sinh L = u^2 - 1,  2u cosh L = u^2 + 1,
-            // 2i u sin(-i L) = u^2 - 1,  2i u cos(i L + pi/2) = u^2 - 1.
+        "inv_right" => {
+            // Right-inverse identities  sinh(asinh z) = z, cosh(acosh z) = z, sin(asin z) = z, cos(acos z) = z  for all z.
+            // The direct query is beyond nlsat (ideal membership through six uninterpreted applications), so it is split into
+            // steps that are each decided, every run, on the terms the library builds:
+            //  (A) for an arbitrary u != 0 and each forward function g in { sinh(ln u), cosh(ln u), sin(-i ln u), cos(i ln u + pi/2) }:
+            //      the library's value is [identical DAG] the textbook combination of sinh/cosh of one part and cos/sin of the other
+            //      part of its argument; those real-function values satisfy (libm axioms, solver) the polynomial relations
+            //      r > 0, r^2 = x^2+y^2, 2 r sh = +-(r^2-1), 2 r ch = r^2+1, r c = x|y, r s = y|x;  and a CLOSED polynomial lemma
+            //      over fresh reals turns these relations into  2 u g = u^2 -+ 1  resp.  2i u g = u^2 - 1.
+            //  (B) for every z: the library's f(f^-1(z)) is [identical DAG] g(u(z)) with u(z) built from the sqrt contract stub;
+            //      the stub values satisfy s^2 = ... (solver), and CLOSED lemmas give u(z) != 0 and  g = z  from (A) at u = u(z).
+            // The only step not sent to a solver is the instantiation of (A) at u = u(z).
             let i_unit = Cmplx::new(z(), one());
             let two = Sym::lit(2.0);
             let u = cvar("u");
-            must("sinh(ln u)", || { assume(nonzero(u)); u.ln().sinh() }, |f| ceq("2 u sinh(ln u) = u^2 - 1", f * u * two, u * u - one()));
-            must("cosh(ln u)", || { assume(nonzero(u)); u.ln().cosh() }, |f| ceq("2 u cosh(ln u) = u^2 + 1", f * u * two, u * u + one()));
-            must("sin(-i ln u)", || { assume(nonzero(u)); (-(i_unit * u.ln())).sin() }, |f| ceq("2i u sin(-i ln u) = u^2 - 1", i_unit * (f * u * two), u * u - one()));
-            must("cos(i ln u + pi/2)", || { assume(nonzero(u)); (i_unit * u.ln() + PI_2).cos() }, |f| ceq("2i u cos(i ln u + pi/2) = u^2 - 1", i_unit * (f * u * two), u * u - one()));
+            let (rq, xq, yq, shq, chq, cq, sq_) = (Sym::var("R"), Sym::var("X"), Sym::var("Y"), Sym::var("SH"), Sym::var("CH"), Sym::var("CO"), Sym::var("SI"));
+            let uq = Cmplx::new(xq, yq);
+            // relations between the real-function values; sign = -1 when the hyperbolic argument is -ln r, swap when the angle is pi/2 - arg u
+            let relations = |r: Sym, x: Sym, y: Sym, sh: Sym, ch: Sym, c: Sym, s: Sym, sign: f64, swap: bool| -> Vec<(&'static str, B)> { vec![
+                ("r > 0", lt(z(), r)), ("r^2 = x^2 + y^2", eq(r * r, x * x + y * y)),
+                ("2 r sinh(+-ln r) = +-(r^2 - 1)", eq(two * r * sh, (r * r - one()) * Sym::lit(sign))), ("2 r cosh(ln r) = r^2 + 1", eq(two * r * ch, r * r + one())),
+                ("r cos(angle)", eq(r * c, if swap { y } else { x })), ("r sin(angle)", eq(r * s, if swap { x } else { y }))] };
+            // (name, g as library calls, textbook combination, conclusion lhs/rhs, sign, swap, hyperbolic part is the real part)
+            for which in ["sinh(ln u)", "cosh(ln u)", "sin(-i ln u)", "cos(i ln u + pi/2)"] {
+                let hyper_first = which.starts_with("sinh") || which.starts_with("cosh");
+                let (sign, swap) = match which { "sin(-i ln u)" => (-1.0, false), "cos(i ln u + pi/2)" => (1.0, true), _ => (1.0, false) };
+                let comb = move |sh: Sym, ch: Sym, c: Sym, s: Sym| -> Cmplx { match which {
+                    "sinh(ln u)" => Cmplx::new(sh * c, ch * s), "cosh(ln u)" => Cmplx::new(ch * c, sh * s),
+                    "sin(-i ln u)" => Cmplx::new(s * ch, c * sh), _ => Cmplx::new(c * ch, -s * sh) } };
+                let concl = move |uu: Cmplx, g: Cmplx| -> (Cmplx, Cmplx) { match which {
+                    "sinh(ln u)" => (g * uu * two, uu * uu - one()), "cosh(ln u)" => (g * uu * two, uu * uu + one()),
+                    _ => (i_unit * (g * uu * two), uu * uu - one()) } };
+                must(which, || { assume(nonzero(u)); let l = u.ln(); let w = match which { "sinh(ln u)" | "cosh(ln u)" => l, "sin(-i ln u)" => -(i_unit * l), _ => i_unit * l + PI_2 };
+                        let g = match which { "sinh(ln u)" => w.sinh(), "cosh(ln u)" => w.cosh(), "sin(-i ln u)" => w.sin(), _ => w.cos() }; (u.abs(), w, g) }, |(r, w, g)| {
+                    let (hp, an) = if hyper_first { (w.real, w.imag) } else { (w.imag, w.real) };
+                    let (sh, ch, c, s) = (hp.sinh(), hp.cosh(), an.cos(), an.sin());
+                    let t = comb(sh, ch, c, s);
+                    prove_eq(&format!("{} :: real part is the textbook combination of real functions", which), g.real, t.real);
+                    prove_eq(&format!("{} :: imaginary part is the textbook combination of real functions", which), g.imag, t.imag);
+                    for (nm, b) in relations(r, u.real, u.imag, sh, ch, c, s, sign, swap) { prove(&format!("{} :: {}", which, nm), b); }
+                });
+                let hyp: Vec<B> = relations(rq, xq, yq, shq, chq, cq, sq_, sign, swap).into_iter().map(|(_, b)| b).collect();
+                let (lhs, rhs) = concl(uq, comb(shq, chq, cq, sq_));
+                prove_closed(&format!("{} :: closed lemma: the relations imply the identity", which), B::implies(B::and(hyp), B::and(vec![eq(lhs.real, rhs.real), eq(lhs.imag, rhs.imag)])));
+            }
+            // (B) compositions
+            let (zq, sv, fq, pq, qq) = (cvar("Z"), cvar("SQ"), cvar("F"), cvar("P"), cvar("Q"));
+            let cimp = |h: Vec<(Cmplx, Cmplx)>, extra: Vec<B>, g: B| { let mut v: Vec<B> = extra; for (a, b) in h { v.push(eq(a.real, b.real)); v.push(eq(a.imag, b.imag)); } B::implies(B::and(v), g) };
+            let ceqb = |a: Cmplx, b: Cmplx| B::and(vec![eq(a.real, b.real), eq(a.imag, b.imag)]);
+            // asinh
+            must_off_singularities("sinh(asinh z)", || { let lib = zc.asinh().sinh(); let s = (zc * zc + one()).sqrt(); let uh = s + zc; (lib, s, uh.ln().sinh()) }, |(lib, s, g)| {
+                prove_eq("sinh(asinh z) :: is sinh(ln u) at u = sqrt(z^2+1) + z (real part)", lib.real, g.real); prove_eq("sinh(asinh z) :: is sinh(ln u) at u = sqrt(z^2+1) + z (imaginary part)", lib.imag, g.imag);
+                ceq("sinh(asinh z) :: the square root satisfies s^2 = z^2 + 1", s * s, zc * zc + one());
+            });
+            { let uu = sv + zq;
+              prove_closed("sinh(asinh z) :: closed: s^2 = z^2+1 implies u = s + z != 0", cimp(vec![(sv * sv, zq * zq + one())], vec![], nonzero(uu)));
+              prove_closed("sinh(asinh z) :: closed: 2 u F = u^2 - 1 implies F = z", cimp(vec![(sv * sv, zq * zq + one()), (fq * uu * two, uu * uu - one())], vec![nonzero(uu)], ceqb(fq, zq))); }
+            // acosh
+            must_off_singularities("cosh(acosh z)", || { let lib = zc.acosh().cosh(); let (p, q) = ((zc - one()).sqrt(), (zc + one()).sqrt()); let uh = p * q + zc; (lib, p, q, uh.ln().cosh()) }, |(lib, p, q, g)| {
+                prove_eq("cosh(acosh z) :: is cosh(ln u) at u = sqrt(z-1) sqrt(z+1) + z (real part)", lib.real, g.real); prove_eq("cosh(acosh z) :: is cosh(ln u) at u = sqrt(z-1) sqrt(z+1) + z (imaginary part)", lib.imag, g.imag);
+                ceq("cosh(acosh z) :: p^2 = z - 1", p * p, zc - one()); ceq("cosh(acosh z) :: q^2 = z + 1", q * q, zc + one());
+            });
+            { let uu = sv + zq;
+              prove_closed("cosh(acosh z) :: closed: p^2 = z-1, q^2 = z+1 imply (pq)^2 = z^2 - 1", cimp(vec![(pq * pq, zq - one()), (qq * qq, zq + one())], vec![], ceqb((pq * qq) * (pq * qq), zq * zq - one())));
+              prove_closed("cosh(acosh z) :: closed: w^2 = z^2-1 implies u = w + z != 0", cimp(vec![(sv * sv, zq * zq - one())], vec![], nonzero(uu)));
+              prove_closed("cosh(acosh z) :: closed: 2 u F = u^2 + 1 implies F = z", cimp(vec![(sv * sv, zq * zq - one()), (fq * uu * two, uu * uu + one())], vec![nonzero(uu)], ceqb(fq, zq))); }
+            // asin, acos
+            must_off_singularities("sin(asin z)", || { let lib = zc.asin().sin(); let s = (cone - zc * zc).sqrt(); let uh = s + i_unit * zc; (lib, s, (-(i_unit * uh.ln())).sin()) }, |(lib, s, g)| {
+                prove_eq("sin(asin z) :: is sin(-i ln u) at u = sqrt(1-z^2) + iz (real part)", lib.real, g.real); prove_eq("sin(asin z) :: is sin(-i ln u) at u = sqrt(1-z^2) + iz (imaginary part)", lib.imag, g.imag);
+                ceq("sin(asin z) :: the square root satisfies s^2 = 1 - z^2", s * s, cone - zc * zc);
+            });
+            must_off_singularities("cos(acos z)", || { let lib = zc.acos().cos(); let s = (cone - zc * zc).sqrt(); let uh = s + i_unit * zc; (lib, (i_unit * uh.ln() + PI_2).cos()) }, |(lib, g)| {
+                prove_eq("cos(acos z) :: is cos(i ln u + pi/2) at u = sqrt(1-z^2) + iz (real part)", lib.real, g.real); prove_eq("cos(acos z) :: is cos(i ln u + pi/2) at u = sqrt(1-z^2) + iz (imaginary part)", lib.imag, g.imag);
+            });
+            { let uu = sv + i_unit * zq;
+              prove_closed("sin(asin z), cos(acos z) :: closed: s^2 = 1-z^2 implies u = s + iz != 0", cimp(vec![(sv * sv, cone - zq * zq)], vec![], nonzero(uu)));
+              prove_closed("sin(asin z), cos(acos z) :: closed: 2i u F = u^2 - 1 implies F = z", cimp(vec![(sv * sv, cone - zq * zq), (i_unit * (fq * uu * two), uu * uu - one())], vec![nonzero(uu)], ceqb(fq, zq))); }
+            control("inv_right control", eq(u.real, u.real + one()));
         }
         "inv_acosh" => {
             must("acosh", || { let a = zc.acosh(); a }, |a| { prove("Re acosh z >= 0 (principal branch)", le(z(), a.real)); prove("Im acosh z in (-pi, pi]", B::and(vec![lt(-PI, a.imag), le(a.imag, PI)])); });
